@@ -29,8 +29,9 @@ RULE = ("history: Hypothesis lists of 2-5 calls among map (thin and thick, plot=
         ">=2 calls (history) / an option set at both levels with different values (lattice).")
 ASSUMPTIONS = ["matplotlib figures (Agg) are created only by histogram1d/scatter/plot and by the plot=True cases and are "
                "closed after each call", "vector layers are not rendered (quiver needs resolution >= 16)",
-               "norm options are strings: a matplotlib Normalize instance handed in as an option is autoscaled in place by "
-               "matplotlib itself when a figure is rendered, which is outside what osyris does with its arguments",
+               "norm options are strings wherever a figure is rendered: a matplotlib Normalize instance handed in as an option "
+               "is autoscaled in place by matplotlib itself then, which is outside what osyris does with its arguments; with "
+               "plot=False a LogNorm instance with both limits set is handed in as well and must keep its limits",
                "limits are python floats (unpacked into keywords)"]
 osyris = None
 Layer = None
@@ -348,6 +349,12 @@ def _lattice_cases():
             for opt in ("operation", "norm", "vmin"):
                 for level in ("layer", "call", "both"):
                     out.append({"f": f, "opt": opt, "level": level, "flip": 0, "other": None, "scatter_first": True})
+        if f in ("map", "hist2d"):
+            # a ready-made matplotlib norm (both limits set) handed in at one level, limits handed in at either level:
+            # the caller's norm object is an argument like any other
+            for level in ("layer", "call"):
+                for lim in ("layer", "call", "none"):
+                    out.append({"f": f, "opt": "norm", "level": level, "flip": 0, "other": None, "norm_instance": lim})
         # pairwise: a second option set at the opposite level
         for o1 in opts:
             for o2 in opts:
@@ -362,7 +369,44 @@ def _norm_of(params):
     return type(nm).__name__, getattr(nm, "vmin", None), getattr(nm, "vmax", None)
 
 
+def lattice_norm_instance(case, r):
+    import matplotlib.colors as mc
+    f, level, lim = case["f"], case["level"], case["norm_instance"]
+    r.nontrivial(lim != "none")
+    r.label("f_" + f, "norm_instance", "level_" + level, "limits_" + lim)
+    nrm = mc.LogNorm(vmin=1.0, vmax=1000.0)
+    limits = {"vmin": 5.0, "vmax": 50.0}
+    lay_kw, call_kw = {}, {}
+    (lay_kw if level == "layer" else call_kw)["norm"] = nrm
+    if lim != "none":
+        (lay_kw if lim == "layer" else call_kw).update(limits)
+    m = meshes.build(MESH_SPEC)
+    dg = meshes.datagroup(m, osyris)
+    n = m.n
+    if f == "map":
+        call = lambda: osyris.map(dg.layer("scalar1", **lay_kw), dg.layer("scalar2"), direction="z", dx=0.9137 * osyris.units("cm"),
+                                  origin=osyris.Vector(0.5217, 0.4723, 0.5611, unit="cm"), resolution=5, plot=False, **call_kw)
+    else:
+        x = osyris.Array(values=np.linspace(1.0, 9.0, n), unit="cm")
+        y = osyris.Array(values=np.linspace(2.0, 30.0, n), unit="g")
+        va = osyris.Array(values=np.arange(n, dtype=np.float64) + 1, unit="K", name="a")
+        vb = osyris.Array(values=np.arange(n, dtype=np.float64) * 2 + 1, unit="K", name="b")
+        call = lambda: osyris.histogram2d(x, y, Layer(va, **lay_kw), vb, resolution=3, plot=False, **call_kw)
+    for k in range(2):
+        p, exc = quiet(call)
+        if exc is not None:
+            r.bad(["lattice", "raises", f, "norm-instance", level], f"{exc!r}; layer kw {list(lay_kw)} call kw {list(call_kw)}")
+            return
+        if (type(nrm).__name__, nrm.vmin, nrm.vmax) != ("LogNorm", 1.0, 1000.0):
+            r.bad(["lattice", "argument-modified", f, "norm-instance"],
+                  f"the LogNorm(vmin=1, vmax=1000) object given at the {level} level has limits ({nrm.vmin}, {nrm.vmax}) after "
+                  f"call {k + 1} with plot=False (limits {limits} given at level {lim!r})")
+            return
+
+
 def lattice(case, r):
+    if case.get("norm_instance"):
+        return lattice_norm_instance(case, r)
     f, opt, level = case["f"], case["opt"], case["level"]
     lv, cv = VALUES[opt][case["flip"]], VALUES[opt][1 - case["flip"]]
     r.nontrivial(level == "both")
@@ -375,7 +419,8 @@ def lattice(case, r):
     m = meshes.build(MESH_SPEC)
     dg = meshes.datagroup(m, osyris)
     n = m.n
-    W = {"W1": osyris.Array(values=np.linspace(1, 2, n), unit="g"), "W2": osyris.Array(values=np.linspace(5, 9, n), unit="g")}
+    # (the two weights are in different units: a layer's own weights are used as they are)
+    W = {"W1": osyris.Array(values=np.linspace(1, 2, n), unit="g"), "W2": osyris.Array(values=np.linspace(5, 9, n), unit="kg")}
     lay_kw = {o: (W[s["layer"]] if o == "weights" else s["layer"]) for o, s in settings.items() if s["layer"] is not None}
     call_kw = {o: (W[s["call"]] if o == "weights" else s["call"]) for o, s in settings.items() if s["call"] is not None}
 
